@@ -387,18 +387,17 @@ def minimize_lbfgsb(
         f0 = checkpoint.fun
 
     # potential update of stop criterion
-    if ftarget is not None:
-        try:
-            _ftarget: Optional[float] = ftarget()  # type: ignore
-        except TypeError:
-            _ftarget = ftarget  # type: ignore
+    # note: test with callable() rather than try/except TypeError, which would
+    # swallow a TypeError raised *inside* the user's function
+    if ftarget is not None and callable(ftarget):
+        _ftarget: Optional[float] = ftarget()
     else:
-        _ftarget = None
+        _ftarget = ftarget  # type: ignore
 
-    try:
-        _gtol: float = gtol()  # type: ignore
-    except TypeError:
-        _gtol = gtol  # type: ignore
+    if callable(gtol):
+        _gtol: float = gtol()
+    else:
+        _gtol = gtol
 
     # Create an internal state instance
     istate = InternalState()
